@@ -5,6 +5,7 @@ every action and every fruit draw `d`; `rnd` is the float32 rounding of the `nor
 -/
 import JumanjiModel.Env.Snake.Lemmas
 import JumanjiModel.Env.Snake.BoundsLemmas
+import JumanjiModel.Env.Snake.EpisodeLemmas
 import JumanjiModel.Prim.Float
 open Jm Jx Snake
 
@@ -89,6 +90,62 @@ theorem snake_consistentB_iff (cfg : Cfg) (s : State) : consistentB cfg s = true
 example : consistentB ⟨2, 3, 10⟩
     ⟨[[true, false, false], [true, true, false]], [[1, 0, 0], [2, 3, 0]], ⟨1, 1⟩,
      [[true, false, false], [false, false, false]], ⟨0, 2⟩, 3, 4, [true, true, false, false]⟩ = true := by decide
+
+/-- pigeonhole over the chain: a consistent snake with fewer cells than the board does not fill the board
+(the chain has `length` cells, the board `rows * cols` distinct cells, a cell outside the chain carries 0) -/
+theorem snake_not_full_of_length (cfg : Cfg) (s : State) (hc : Consistent cfg s)
+    (hlen : s.length < ((cfg.rows * cfg.cols : Nat) : Int)) : Grid.all id s.body = false :=
+  Snake.not_full_of_length cfg s hc hlen
+
+/-- and conversely (the chain cells are pairwise distinct cells of the board): for consistent states
+"board not full" (`jnp.all(body)` false, the implementation's completion test) ⇔ `length < rows * cols` -/
+theorem snake_not_full_iff_length (cfg : Cfg) (s : State) (hc : Consistent cfg s) :
+    Grid.all id s.body = false ↔ s.length < ((cfg.rows * cfg.cols : Nat) : Int) :=
+  Snake.not_full_iff_length cfg s hc
+
+/-- `snake_step_consistent` with the hypothesis "board not full" replaced by `length < rows * cols`:
+a legal move from a consistent state shorter than the board leads to a consistent state, for every
+admissible fruit draw -/
+theorem snake_step_consistent_of_length (rnd : Rat → Rat) (cfg : Cfg) (s : State) (a : Nat) (d : Nat)
+    (hc : Consistent cfg s) (hl : legal cfg s a) (hlen : s.length < ((cfg.rows * cfg.cols : Nat) : Int))
+    (hd : validDraw cfg (step rnd cfg s a d).1.body d) :
+    Consistent cfg (step rnd cfg s a d).1 := Snake.step_consistent_of_length rnd cfg s a d hc hl hlen hd
+
+/-- inductive form: "consistent and shorter than the board" is preserved by every step that does not end
+the episode, whatever action 0..3 is played (it holds after reset on every board with more than one cell) -/
+theorem snake_step_consistent_mid_of_length (rnd : Rat → Rat) (cfg : Cfg) (s : State) (a : Nat) (d : Nat)
+    (ha : a < 4) (hc : Consistent cfg s) (hlen : s.length < ((cfg.rows * cfg.cols : Nat) : Int))
+    (hd : validDraw cfg (step rnd cfg s a d).1.body d)
+    (hmid : (step rnd cfg s a d).2.stepType ≠ .last) :
+    Consistent cfg (step rnd cfg s a d).1 ∧
+      (step rnd cfg s a d).1.length < ((cfg.rows * cfg.cols : Nat) : Int) :=
+  Snake.step_consistent_mid_of_length rnd cfg s a d ha hc hlen hd hmid
+
+/-- base case of that invariant: after reset the length is 1, below the board size on every board with
+more than one cell -/
+theorem snake_reset_length_lt (rnd : Rat → Rat) (cfg : Cfg) (hr hc d : Nat) (h : 1 < cfg.rows * cfg.cols) :
+    (reset rnd cfg hr hc d).1.length < ((cfg.rows * cfg.cols : Nat) : Int) := by
+  rw [Snake.reset_length]; omega
+
+-- the hypotheses are satisfiable: 2×3 board, snake of length 3, Right (onto an empty cell) is legal, draw 0 admissible
+example :
+    let cfg : Cfg := ⟨2, 3, 10⟩
+    let s : State := ⟨[[true, false, false], [true, true, false]], [[1, 0, 0], [2, 3, 0]], ⟨1, 1⟩,
+      [[true, false, false], [false, false, false]], ⟨0, 2⟩, 3, 4, [true, true, false, false]⟩
+    Consistent cfg s ∧ legal cfg s 1 ∧ s.length < ((cfg.rows * cfg.cols : Nat) : Int) ∧
+      validDraw cfg (step id cfg s 1 0).1.body 0 ∧ (step id cfg s 1 0).2.stepType ≠ .last :=
+  ⟨(snake_consistentB_iff _ _).1 (by decide), by decide, by decide, by decide +kernel, by decide +kernel⟩
+
+-- the length hypothesis cannot simply be dropped: on a FULL 1×2 board (fruit on the tail cell, which
+-- `Consistent` allows there) moving Left onto the tail cell is legal, the fruit is "eaten", the tail does not
+-- move and the successor numbers its cells 3, 2 — not a chain.  (The implementation ends the episode as soon as
+-- the board is full, so such a state is never stepped from.)
+example :
+    let cfg : Cfg := ⟨1, 2, 10⟩
+    let s : State := ⟨[[true, true]], [[1, 2]], ⟨0, 1⟩, [[true, false]], ⟨0, 0⟩, 2, 1, [false, false, false, true]⟩
+    consistentB cfg s = true ∧ legal cfg s 3 ∧ ¬ (s.length < ((cfg.rows * cfg.cols : Nat) : Int)) ∧
+      validDraw cfg (step id cfg s 3 0).1.body 0 ∧ consistentB cfg (step id cfg s 3 0).1 = false := by
+  decide +kernel
 end Props.C07
 
 namespace Props.C08
@@ -97,6 +154,26 @@ namespace Props.C08
 theorem snake_length_telescopes (rnd : Rat → Rat) (cfg : Cfg) (s : State) (a : Int) (d : Nat) :
     (((step rnd cfg s a d).1.length : Int) : Rat) = (s.length : Rat) + (step rnd cfg s a d).2.reward.sum :=
   Snake.length_telescopes rnd cfg s a d
+
+/-- whole-episode fold of the identity above (no hypotheses: ANY start state, ANY list of (action, fruit draw)
+pairs — legal or not, also past a LAST step): the sum of the step rewards is the growth of the length -/
+theorem snake_episode_return (rnd : Rat → Rat) (cfg : Cfg) (s : State) (ads : List (Int × Nat)) :
+    runReturn rnd cfg s ads = ((runState rnd cfg s ads).length : Rat) - (s.length : Rat) :=
+  Snake.episode_return rnd cfg s ads
+
+/-- from reset (length 1; no hypotheses on the board size, head cell, draws or actions): the return of the
+play-out is `length_final − 1`, the objective (number of fruits eaten) of the final state -/
+theorem snake_episode_return_from_reset (rnd : Rat → Rat) (cfg : Cfg) (hr hc d0 : Nat) (ads : List (Int × Nat)) :
+    runReturn rnd cfg (reset rnd cfg hr hc d0).1 ads =
+      ((objective (runState rnd cfg (reset rnd cfg hr hc d0).1 ads) : Int) : Rat) :=
+  Snake.episode_return_from_reset rnd cfg hr hc d0 ads
+
+-- 2×3 board, head (0,0), fruit at cell 1 = (0,1): Right eats it (new fruit at cell 5 = (1,2)), Down, Right eats
+-- again (new fruit at cell 0); return 2 = 3 − 1
+example : runReturn id ⟨2, 3, 10⟩ (reset id ⟨2, 3, 10⟩ 0 0 1).1 [(1, 5), (2, 0), (1, 0)] = 2 ∧
+    (runState id ⟨2, 3, 10⟩ (reset id ⟨2, 3, 10⟩ 0 0 1).1 [(1, 5), (2, 0), (1, 0)]).length = 3 ∧
+    consistentB ⟨2, 3, 10⟩ (runState id ⟨2, 3, 10⟩ (reset id ⟨2, 3, 10⟩ 0 0 1).1 [(1, 5), (2, 0), (1, 0)]) = true := by
+  decide +kernel
 end Props.C08
 
 namespace Props.C09
